@@ -1,4 +1,287 @@
-/- Helper lemmas for LC/Props/C01.lean. TO BE PROVED (no sorry may remain). -/
+/- Helper lemmas for LC/Props/C01.lean. -/
 import LC.Model.V2Match
 namespace LC.V2Match
+open LC.Score
+
+/-! ### the pre-filter -/
+
+theorem countOf_planted (pre D post : List Nat) (t : Nat) :
+    countOf (pre ++ D ++ post) t ≥ countOf D t := by
+  unfold countOf
+  simp only [List.count_append]
+  omega
+
+theorem prefilter_contains' (pre D post : List Nat) :
+    tokenSim (pre ++ D ++ post) D = ((distinct D).length, (distinct D).length) := by
+  unfold tokenSim tokenSimWith
+  have : (distinct D).filter (fun t => decide (countOf (pre ++ D ++ post) t ≥ countOf D t)) = distinct D := by
+    rw [List.filter_eq_self]
+    intro t _
+    simpa using countOf_planted pre D post t
+  rw [this]
+
+/-! ### q-gram checksums -/
+
+theorem planted_window (pre D post : List Nat) (i q : Nat) (hi : i + q ≤ D.length) :
+    ((pre ++ D ++ post).drop (pre.length + i)).take q = (D.drop i).take q := by
+  rw [List.append_assoc, List.drop_append, List.drop_of_length_le (by omega), List.nil_append]
+  have e : pre.length + i - pre.length = i := by omega
+  rw [e, List.drop_append_of_le_length (by omega), List.take_append_of_le_length]
+  rw [List.length_drop]
+  omega
+
+theorem hashes_contains' (crc : Text → Nat) (wordOf : Nat → Text) (q : Nat) (hq : 0 < q)
+    (pre D post : List Nat) (i : Nat) (hi : i + q ≤ D.length) :
+    (hashes crc wordOf q (pre ++ D ++ post))[pre.length + i]? = (hashes crc wordOf q D)[i]? := by
+  unfold hashes
+  have hq' : ¬ q = 0 := by omega
+  simp only [hq', if_false, List.getElem?_map]
+  have h1 : pre.length + i < (pre ++ D ++ post).length + 1 - q := by
+    simp only [List.length_append]; omega
+  have h2 : i < D.length + 1 - q := by omega
+  rw [List.getElem?_range h1, List.getElem?_range h2]
+  simp only [Option.map_some]
+  rw [planted_window pre D post i q hi]
+
+/-! ### identical texts -/
+
+theorem diffRange_exact (D : List Nat) : diffRange D [⟨.eq, D⟩] = (0, 1) := by
+  simp [diffRange, diffRangeAux]
+
+theorem score_exact' (D : List Nat) (hD : D ≠ []) :
+    scoreOffsets D [⟨.eq, D⟩] = (0, 0, 0) ∧ Valid [⟨.eq, D⟩] D D := by
+  constructor
+  · unfold scoreOffsets
+    rw [diffRange_exact]
+    simp [levWord, levWordAux, textLength]
+  · refine ⟨by simp [src], by simp [dst], ?_⟩
+    intro d hd
+    simp only [List.mem_singleton] at hd
+    subst hd
+    exact hD
+
+theorem score_exact_conf' {C : Type} (N : NumEnv C) (wordOf : Nat → Text) (isDigitRune : Nat → Bool)
+    (decode : Text → List Nat) (induced : List (Text × List Text)) (d : KDoc) (_hD : d.ids ≠ []) :
+    score N wordOf isDigitRune decode induced d [⟨.eq, d.ids⟩] = (N.conf d.ids.length 0, 0, 0) := by
+  unfold score
+  rw [diffRange_exact]
+  simp [vetoScan, levWord, levWordAux, textLength]
+
+/-! ### the retain pass -/
+
+/-- one iteration of the retain loop -/
+def retainStep {C : Type} (N : NumEnv C) (cands : List (Match C)) (retain : List Bool)
+    (ci : Match C × Nat) : List Bool :=
+  let earlier := ((cands.take ci.2).zip (retain.take ci.2)).zipIdx.map (fun p => (p.1.1, p.1.2, p.2))
+  let r := retainInner N ci.1 earlier []
+  if r.1 then
+    (retain.zipIdx.map (fun p => if p.2 = ci.2 then true else if r.2.contains p.2 then false else p.1))
+  else retain
+
+theorem retainPass_eq {C : Type} (N : NumEnv C) (cands : List (Match C)) :
+    retainPass N cands = cands.zipIdx.foldl (retainStep N cands) (List.replicate cands.length false) := rfl
+
+theorem retainStep_length {C : Type} (N : NumEnv C) (cands : List (Match C)) (retain : List Bool)
+    (ci : Match C × Nat) : (retainStep N cands retain ci).length = retain.length := by
+  unfold retainStep
+  simp only
+  split <;> simp
+
+theorem foldl_retainStep_length {C : Type} (N : NumEnv C) (cands : List (Match C))
+    (l : List (Match C × Nat)) (retain : List Bool) :
+    (l.foldl (retainStep N cands) retain).length = retain.length := by
+  induction l generalizing retain with
+  | nil => rfl
+  | cons a t ih => rw [List.foldl_cons, ih, retainStep_length]
+
+theorem retain_length' {C : Type} (N : NumEnv C) (cands : List (Match C)) :
+    (retainPass N cands).length = cands.length := by
+  rw [retainPass_eq, foldl_retainStep_length, List.length_replicate]
+
+theorem retain_single' {C : Type} (N : NumEnv C) (c : Match C) : retainPass N [c] = [true] := by
+  rfl
+
+/-- a candidate no other candidate shares a line with ends the inner loop retained, displacing nobody -/
+theorem retainInner_unconflicted {C : Type} (N : NumEnv C) (c : Match C)
+    (earlier : List (Match C × Bool × Nat)) (props : List Nat)
+    (h : ∀ x ∈ earlier, contains c x.1 = false ∧ overlaps c x.1 = false) :
+    retainInner N c earlier props = (true, props) := by
+  induction earlier generalizing props with
+  | nil => rfl
+  | cons x t ih =>
+    obtain ⟨o, ret, j⟩ := x
+    have hx := h (o, ret, j) (by simp)
+    simp only at hx
+    unfold retainInner
+    simp only [hx.1, hx.2, Bool.false_eq_true, false_and, if_false]
+    exact ih props (fun y hy => h y (by simp [hy]))
+
+/-- only retained earlier candidates that `c` contains are proposed for displacement -/
+theorem retainInner_props {C : Type} (N : NumEnv C) (c : Match C)
+    (earlier : List (Match C × Bool × Nat)) (props : List Nat) (j : Nat)
+    (hj : j ∈ (retainInner N c earlier props).2) :
+    j ∈ props ∨ ∃ o ret, (o, ret, j) ∈ earlier ∧ contains c o = true := by
+  induction earlier generalizing props with
+  | nil => exact Or.inl hj
+  | cons x t ih =>
+    obtain ⟨o, ret, k⟩ := x
+    unfold retainInner at hj
+    have lift : (j ∈ props ∨ ∃ o' ret', (o', ret', j) ∈ t ∧ contains c o' = true) →
+        j ∈ props ∨ ∃ o' ret', (o', ret', j) ∈ (o, ret, k) :: t ∧ contains c o' = true := by
+      rintro (h | ⟨o', ret', hm, hc⟩)
+      · exact Or.inl h
+      · exact Or.inr ⟨o', ret', by simp [hm], hc⟩
+    by_cases h1 : contains c o = true ∧ ret = true
+    · simp only [h1, and_self, if_true] at hj
+      by_cases h2 : N.wgt (c.endTok - c.startTok) c.conf (o.endTok - o.startTok) o.conf = true
+      · simp only [h2, if_true] at hj
+        rcases ih _ hj with h | h
+        · simp only [List.mem_append, List.mem_singleton] at h
+          rcases h with h | h
+          · exact Or.inl h
+          · subst h
+            exact Or.inr ⟨o, ret, by simp, h1.1⟩
+        · exact lift (Or.inr h)
+      · simp only [h2] at hj
+        by_cases h3 : N.wgt (o.endTok - o.startTok) o.conf (c.endTok - c.startTok) c.conf = true
+        · simp only [h3, if_true] at hj
+          exact Or.inl hj
+        · simp only [h3] at hj
+          exact lift (ih _ hj)
+    · simp only [h1, if_false] at hj
+      by_cases h4 : overlaps c o = true ∧ ret = true
+      · simp only [h4, and_self, if_true] at hj
+        by_cases h5 : c.startLine = o.endLine
+        · simp only [h5, ne_eq, not_true_eq_false, if_false] at hj
+          exact lift (ih _ hj)
+        · simp only [ne_eq, h5, not_false_eq_true, if_true] at hj
+          exact Or.inl hj
+      · simp only [h4, if_false] at hj
+        exact lift (ih _ hj)
+
+/-- the entries of the list of earlier candidates are candidates, at their own index -/
+theorem mem_earlier {C : Type} (cands : List (Match C)) (retain : List Bool) (k : Nat)
+    (o : Match C) (ret : Bool) (j : Nat)
+    (h : (o, ret, j) ∈ ((cands.take k).zip (retain.take k)).zipIdx.map (fun p => (p.1.1, p.1.2, p.2))) :
+    cands[j]? = some o ∧ j < k := by
+  rw [List.mem_map] at h
+  obtain ⟨⟨⟨o', ret'⟩, j'⟩, hm, he⟩ := h
+  simp only [Prod.mk.injEq] at he
+  obtain ⟨rfl, rfl, rfl⟩ := he
+  rw [List.mem_zipIdx_iff_getElem?] at hm
+  rw [List.getElem?_zip_eq_some] at hm
+  have h1 := hm.1
+  simp only [List.getElem?_take] at h1
+  by_cases hlt : j' < k
+  · simp only [hlt, if_true] at h1
+    exact ⟨h1, hlt⟩
+  · simp [hlt] at h1
+
+theorem retainStep_at {C : Type} (N : NumEnv C) (cands : List (Match C)) (i : Nat) (c : Match C)
+    (hi : cands[i]? = some c)
+    (hno : ∀ j o, cands[j]? = some o → j ≠ i →
+      contains c o = false ∧ overlaps c o = false ∧ contains o c = false ∧ overlaps o c = false)
+    (retain : List Bool) (hlen : retain.length = cands.length) :
+    (retainStep N cands retain (c, i))[i]? = some true := by
+  have hin : i < cands.length := by
+    rcases Nat.lt_or_ge i cands.length with h | h
+    · exact h
+    · rw [List.getElem?_eq_none h] at hi; cases hi
+  unfold retainStep
+  simp only
+  rw [retainInner_unconflicted]
+  · simp only [if_true, List.getElem?_map]
+    have : retain.zipIdx[i]? = some (retain[i]'(by omega), i) := by
+      rw [List.getElem?_zipIdx]
+      simp [List.getElem?_eq_getElem (show i < retain.length by omega)]
+    rw [this]
+    simp
+  · rintro ⟨o, ret, j⟩ hx
+    obtain ⟨ho, hj⟩ := mem_earlier cands retain i o ret j hx
+    have := hno j o ho (by omega)
+    exact ⟨this.1, this.2.1⟩
+
+theorem retainStep_keep {C : Type} (N : NumEnv C) (cands : List (Match C)) (i : Nat) (c : Match C)
+    (hi : cands[i]? = some c)
+    (hno : ∀ j o, cands[j]? = some o → j ≠ i →
+      contains c o = false ∧ overlaps c o = false ∧ contains o c = false ∧ overlaps o c = false)
+    (retain : List Bool) (hret : retain[i]? = some true)
+    (k : Nat) (x : Match C) (hk : cands[k]? = some x) (hki : k ≠ i) :
+    (retainStep N cands retain (x, k))[i]? = some true := by
+  unfold retainStep
+  simp only
+  split
+  · simp only [List.getElem?_map]
+    have hin : i < retain.length := by
+      rcases Nat.lt_or_ge i retain.length with h | h
+      · exact h
+      · rw [List.getElem?_eq_none h] at hret; cases hret
+    have hv : retain[i] = true := by
+      rw [List.getElem?_eq_getElem hin] at hret
+      exact Option.some.inj hret
+    have : retain.zipIdx[i]? = some (retain[i]'hin, i) := by
+      rw [List.getElem?_zipIdx]
+      simp [List.getElem?_eq_getElem hin]
+    rw [this]
+    simp only [Option.map_some, Option.some.injEq]
+    have hik : ¬ i = k := fun e => hki e.symm
+    simp only [hik, if_false, hv]
+    have hnot : i ∈ (retainInner N x (((cands.take k).zip (retain.take k)).zipIdx.map
+        (fun p => (p.1.1, p.1.2, p.2))) []).2 → False := by
+      intro hc
+      rcases retainInner_props N x _ [] i hc with h | ⟨o, ret, hm, hco⟩
+      · simp at h
+      · obtain ⟨ho, _⟩ := mem_earlier cands retain k o ret i hm
+        rw [hi] at ho
+        have ho' : c = o := Option.some.inj ho
+        subst ho'
+        have := (hno k x hk hki).2.2.1
+        rw [this] at hco
+        cases hco
+    simpa using hnot
+  · exact hret
+
+theorem foldl_retainStep_unconflicted {C : Type} (N : NumEnv C) (cands : List (Match C)) (i : Nat)
+    (c : Match C) (hi : cands[i]? = some c)
+    (hno : ∀ j o, cands[j]? = some o → j ≠ i →
+      contains c o = false ∧ overlaps c o = false ∧ contains o c = false ∧ overlaps o c = false)
+    (l : List (Match C)) (k : Nat) (hl : ∀ m x, l[m]? = some x → cands[k + m]? = some x)
+    (retain : List Bool) (hlen : retain.length = cands.length)
+    (hdone : i < k → retain[i]? = some true) (hik : i < k + l.length) :
+    ((l.zipIdx k).foldl (retainStep N cands) retain)[i]? = some true := by
+  induction l generalizing k retain with
+  | nil => exact hdone (by simpa using hik)
+  | cons x t ih =>
+    rw [List.zipIdx_cons, List.foldl_cons]
+    have hx : cands[k]? = some x := by simpa using hl 0 x (by simp)
+    apply ih (k + 1)
+    · intro m y hy
+      have := hl (m + 1) y (by simpa using hy)
+      rw [show k + 1 + m = k + (m + 1) by omega]
+      exact this
+    · rw [retainStep_length, hlen]
+    · intro hlt
+      by_cases hk : k = i
+      · subst hk
+        rw [hi] at hx
+        have hx' : c = x := Option.some.inj hx
+        subst hx'
+        exact retainStep_at N cands k c hi hno retain hlen
+      · exact retainStep_keep N cands i c hi hno retain (hdone (by omega)) k x hx hk
+    · simp only [List.length_cons] at hik
+      omega
+
+theorem retain_unconflicted' {C : Type} (N : NumEnv C) (cands : List (Match C)) (i : Nat) (c : Match C)
+    (hi : cands[i]? = some c)
+    (hno : ∀ j o, cands[j]? = some o → j ≠ i →
+      contains c o = false ∧ overlaps c o = false ∧ contains o c = false ∧ overlaps o c = false) :
+    (retainPass N cands)[i]? = some true := by
+  rw [retainPass_eq]
+  have hin : i < cands.length := by
+    rcases Nat.lt_or_ge i cands.length with h | h
+    · exact h
+    · rw [List.getElem?_eq_none h] at hi; cases hi
+  exact foldl_retainStep_unconflicted N cands i c hi hno cands 0 (by intro m x h; simpa using h)
+    _ (by simp) (by intro h; omega) (by omega)
+
 end LC.V2Match
